@@ -3,6 +3,7 @@
 //! every call index. Fault space: hard error / `Ok(0)` at every call index.
 
 use crate::container::{self, End, FileSpec, SpecProfile};
+use crate::val::Val;
 use crate::prng::{Fnv, Rng};
 use crate::props::c05::{op_label, shrink_spec};
 use crate::runner::{panic_site, Outcome, Prop, Tier};
@@ -43,6 +44,8 @@ struct RunOut {
 	stats: crate::simio::SinkStats,
 	log: Vec<crate::simio::SinkCall>,
 	digest: u64,
+	/// number of values whose call had returned Ok after each step
+	model_lens: Vec<usize>,
 }
 
 fn run_with(spec: &FileSpec, cfg: &SinkCfg, baseline_len: usize, stop_after_fault: bool) -> RunOut {
@@ -57,7 +60,9 @@ fn run_with(spec: &FileSpec, cfg: &SinkCfg, baseline_len: usize, stop_after_faul
 		.filter(|f| !matches!(f.kind, SinkFaultKind::Interrupted))
 		.map(|f| f.at_call)
 		.min();
-	let run = container::run_writer(spec, &sink, |st, _| {
+	let mut model_lens = vec![];
+	let run = container::run_writer(spec, &sink, |st, model| {
+		model_lens.push(model.len());
 		// after the call during which a hard fault fired, nothing more is asserted: abandon
 		!(stop_after_fault && hard_at.map_or(false, |h| st.sink_calls > h))
 	});
@@ -69,6 +74,7 @@ fn run_with(spec: &FileSpec, cfg: &SinkCfg, baseline_len: usize, stop_after_faul
 		stats: st.stats.clone(),
 		log: st.log.clone(),
 		digest: 0,
+		model_lens,
 	}
 	.with_digest(sink.digest())
 }
@@ -436,15 +442,34 @@ impl Prop for C16 {
 						out.count("clean_sink_failure_then_history_continued", 1);
 						let later = &r.steps[i + 1..];
 						if !later.is_empty() && later.iter().all(|s| s.res.is_ok()) && r.accepted != *b {
-							out.fail(
-								"C16:stream-corrupted-after-clean-sink-failure",
-								format!(
-									"{label}: step {i} ({op}) reported the sink error (nothing of that block had been accepted), every later call returned Ok, yet the sink ends up with {} bytes that differ from the baseline's {}",
-									r.accepted.len(),
-									b.len()
-								),
-							);
-							break;
+							// The failing call returned its error: whether the value(s) it carried were kept (and written
+							// by a later call) or dropped with it is the implementation's choice, and so is where blocks
+							// are then cut. What must hold: the sink ends up with a valid file holding every value of
+							// every OTHER call, in order, plus all or none of the failing call's own.
+							let env = crate::ast::Env::build(&spec.schema);
+							let judge = |bytes: &[u8]| crate::ref_container::parse(bytes).and_then(|p| p.decode_values(&env, &spec.schema));
+							let verdict = match (judge(b), judge(&r.accepted)) {
+								(Err(e), _) => Err(format!("HARNESS: baseline does not parse: {e}")),
+								(Ok(_), Err(e)) => Err(format!("not a valid container file: {e}")),
+								(Ok(base_vals), Ok(got)) => {
+									let lo = if i == 0 { 0 } else { base.model_lens.get(i - 1).copied().unwrap_or(0) };
+									let hi = base.model_lens.get(i).copied().unwrap_or(lo).max(lo);
+									let without: Vec<&Val> = base_vals[..lo.min(base_vals.len())].iter().chain(base_vals[hi.min(base_vals.len())..].iter()).collect();
+									if got == base_vals || got.iter().collect::<Vec<_>>() == without {
+										Ok(())
+									} else {
+										Err(format!("holds {} values; the baseline holds {} ({} of them from the failing call)", got.len(), base_vals.len(), hi - lo))
+									}
+								}
+							};
+							if let Err(why) = verdict {
+								out.fail(
+									if why.starts_with("HARNESS") { "harness:C16:baseline" } else { "C16:stream-corrupted-after-clean-sink-failure" },
+									format!("{label}: step {i} ({op}) reported the sink error (nothing of that block had been accepted), every later call returned Ok, yet the sink ends up with a stream that is {why}"),
+								);
+								break;
+							}
+							out.count("recovered_stream_differs_in_block_layout_only_or_drops_the_failed_call", 1);
 						}
 					}
 					// what the sink held when the fault fired (a consumed writer's Drop may retry its flush afterwards)
